@@ -250,7 +250,7 @@ class _fill_n_u:
     """a batch of ANY length into a (non-adaptive) histogram with ANY number of bins: every bin gains exactly the weight of the
     batch entries inside it -- which is what folding fill() over the batch adds"""
     probe = "quantifier-free"
-    lemmas = _freq_u.lemmas
+    lemmas = _freq_u.lemmas + [induct.sum_add_lemma(k) for k in ("int", "float")]
     known = {
         "underflow_and_overflow_gain_the_weight_below_and_above_for_consecutive_bins_otherwise_unknown":
             [("F19b", lambda o: _micro_gap(attr(attr(o.self, "_binnings")[0], "_bins")))],
@@ -272,6 +272,47 @@ class _fill_n_u:
             kw["weights"] = b.tarray("weights", (N,), "float64" if b.cfg.w == "float" else "int64")
             b.assume(forall(0, N, lambda i: kw["weights"][i] >= 0))
         return kw
+
+    def using(a, old, result):
+        """for exactly consecutive bins: the gained contents add up to the weight inside the bins (bins-sum lemma), inside + below +
+        above is the whole batch (partition lemma), and the sum of old + gained contents is the sum of the sums (sum-add lemma)"""
+        from pyvc.values import CURRENT
+        from pyvc.tarr import kind_of_dtype as kod
+        bins = attr(attr(old.self, "_binnings")[0], "_bins")
+        B, nb = bins.term, term_of(raw(shape_of(bins)[0]), "int")
+        N = term_of(raw(shape_of(old.values)[0]), "int")
+        W = getattr(old, "weights", None)
+        f0, f1 = attr(old.self, "_frequencies"), attr(a.self, "_frequencies")
+        kd = "int" if W is None else kod(W.dtype)
+        if kod(f1.dtype) != kd or kod(f0.dtype) != kd:
+            return []          # the weights were promoted into the contents' type: the identity is stated for equal kinds only
+        k = z3.Int("%cons_k")
+        consecutive = z3.ForAll([k], z3.Implies(z3.And(k >= 0, k < nb - 1), z3.Select(B, k, 1) == z3.Select(B, k + 1, 0)))
+        if not CURRENT["interp"].ctx.branch(consecutive):
+            return []
+        Wt = z3.K(z3.IntSort(), z3.IntVal(1)) if W is None else W.term
+        D = old.values.term
+        j = z3.Int("%gain_j")
+        G = z3.Lambda([j], induct.wsum_fn(kd)(D, Wt, z3.Select(B, j, 0), z3.Select(B, j, 1), j == nb - 1, N))
+        out = [(induct.monotone_lemma(), (B, nb)), (induct.bins_sum_lemma(kd), (D, Wt, N, B, nb, G)),
+               (induct.partition_lemma(kd), (D, Wt, N, z3.Select(B, 0, 0), z3.Select(B, nb - 1, 1))),
+               (induct.sum_add_lemma(kd), (f0.term, G, f1.term, nb))]
+        if W is None:
+            out.append((induct.constant_sum_lemma(), (N,)))
+        return out
+
+    @ensures("for_exactly_consecutive_bins_the_histogram_gains_exactly_the_weight_of_the_batch")
+    def _(a, old, result):
+        bins = attr(attr(old.self, "_binnings")[0], "_bins")
+        n, N = shape_of(bins)[0], shape_of(old.values)[0]
+        W = getattr(old, "weights", None)
+        f0, f1 = attr(old.self, "_frequencies"), attr(a.self, "_frequencies")
+        if dtype_of(f0).kind != dtype_of(f1).kind or (W is not None and dtype_of(W).kind != dtype_of(f0).kind):
+            return True
+        m0, m1 = elems(attr(old.self, "_missed")), elems(attr(a.self, "_missed"))
+        cons = forall(0, n - 1, lambda k: bins[k, 1] == bins[k + 1, 0])
+        batch = N if W is None else total_t(W)
+        return Implies(And(cons, N > 0), lambda: total_t(f1) + m1[0] + m1[1] == total_t(f0) + m0[0] + m0[1] + batch)
 
     @ensures("every_bin_gains_the_weight_of_exactly_the_batch_entries_inside_it")
     def _(a, old, result):
